@@ -377,8 +377,21 @@ def _leaf_paths(fn, keyparam):
                 elif c.func.attr in ("pop", "remove"):
                     ev.append(("delete", _affine(c.args[0], env) if c.args else None, c.lineno))
 
+    # locals that name a condition on the search result (`is_new = index < 0`)
+    cond_defs = {}
+    for a in ast.walk(fn):
+        if isinstance(a, ast.Assign) and len(a.targets) == 1 and isinstance(a.targets[0], ast.Name) and \
+                isinstance(a.value, (ast.Compare, ast.UnaryOp, ast.BoolOp)):
+            cond_defs.setdefault(a.targets[0].id, []).append(a.value)
+
+    def named(test):
+        if isinstance(test, ast.Name) and len(cond_defs.get(test.id, ())) == 1:
+            return cond_defs[test.id][0]
+        return test
+
     def decide(test, env, found):
         """True / False / None for a test on the index given found/absent"""
+        test = named(test)
         if isinstance(test, ast.Compare) and len(test.ops) == 1:
             l, r = _affine(test.left, env), _affine(test.comparators[0], env)
             op = test.ops[0]
@@ -420,6 +433,7 @@ def _leaf_paths(fn, keyparam):
         return None
 
     def mentions_index(test, env):
+        test = named(test)
         return any(isinstance(n, ast.Name) and env.get(n.id) is not None and env[n.id][0] != 0
                    for n in ast.walk(test))
 
@@ -627,6 +641,13 @@ def _search_contract(res, cls):
         return None
 
     def tval(t, sign):
+        if isinstance(t, ast.Name):
+            # a local that names the comparison (`goes_right = compare(k, key) < 0`)
+            ds = [a.value for a in ast.walk(sfn) if isinstance(a, ast.Assign) and len(a.targets) == 1
+                  and isinstance(a.targets[0], ast.Name) and a.targets[0].id == t.id
+                  and isinstance(a.value, (ast.Compare, ast.BoolOp, ast.UnaryOp))]
+            if len(ds) == 1:
+                return tval(ds[0], sign)
         if isinstance(t, ast.BoolOp):
             vals = [tval(x, sign) for x in t.values]
             return any(vals) if isinstance(t.op, ast.Or) else all(vals)
@@ -671,7 +692,14 @@ def _search_contract(res, cls):
                 {-1: "<", 0: "==", 1: ">"}[sign], effects[sign], want[sign]))
     # after the loop: -1 - low
     after = [r for r in sfn.body if isinstance(r, ast.Return)]
-    if not after or _affine(after[-1].value, {low: (1, 0)}) != (-1, -1):
+    env_after = {low: (1, 0)}
+    seen_loop = False
+    for st in sfn.body:
+        if st is loop:
+            seen_loop = True
+        elif seen_loop and isinstance(st, ast.Assign) and len(st.targets) == 1 and isinstance(st.targets[0], ast.Name):
+            env_after[st.targets[0].id] = _affine(st.value, env_after)     # a local naming the insertion point
+    if not after or _affine(after[-1].value, env_after) != (-1, -1):
         bad.append("the absent result is %s (expected -1 - %s)" % (
             pyfront.unparse(after[-1].value) if after else None, low))
     for b in bad:
